@@ -90,6 +90,23 @@ func (a *Analysis) ruleW() {
 		if callee == nil || callee.Pkg != a.P.Gen || len(c.Common().Args) != 2 {
 			continue
 		}
+		hasExec := false
+		for _, cc := range callsIn(callee) {
+			if n := calleeName(cc); n == "(*html/template.Template).Execute" || n == "(*text/template.Template).Execute" {
+				hasExec = true
+			}
+		}
+		if !hasExec {
+			continue // some other helper of the generator
+		}
+		if lk, ok := c.Common().Args[1].(*ssa.Lookup); ok && !lk.CommaOk && lk.Index == c.Common().Args[0] && loadedGlobal(lk.X) == tableVar {
+			// update(stem, table[stem]): the pair is an entry of the table whatever the stem is
+			upd = callee
+			okMain = true
+			r.OK("W1", "main/arguments", a.P.InstrPos(c), "", "%s(stem, %s[stem]): file stem and variable are one entry of the table", fnKey(callee), tableVar.Name())
+			a.checkMainStops(c)
+			continue
+		}
 		k, okk := c.Common().Args[0].(*ssa.Extract)
 		v, okv := c.Common().Args[1].(*ssa.Extract)
 		if !okk || !okv {
@@ -114,35 +131,7 @@ func (a *Analysis) ruleW() {
 		} else {
 			r.Bad("W1", "main/arguments", a.P.InstrPos(c), "", "main passes the table's value as file stem and its key as variable name (swapped)")
 		}
-		// error stops the run
-		stops := false
-		if call, ok := c.(*ssa.Call); ok {
-			for _, ref := range *call.Referrers() {
-				bo, ok := ref.(*ssa.BinOp)
-				if !ok || bo.Op != token.NEQ {
-					continue
-				}
-				for _, br := range *bo.Referrers() {
-					if ifi, ok := br.(*ssa.If); ok {
-						if len(ifi.Block().Succs[0].Preds) != 1 {
-							r.Bad("W2", "main/stop-on-error", a.P.InstrPos(ifi), "", "main's fatal branch is also reached when the update did not fail (the error test is combined with another condition): some lists would not be regenerated")
-						}
-						for _, in := range ifi.Block().Succs[0].Instrs {
-							if cc, ok := in.(ssa.CallInstruction); ok {
-								n := calleeName(cc)
-								if strings.HasPrefix(n, "log.Fatal") || n == "os.Exit" || strings.HasPrefix(n, "log.Panic") || n == "panic" {
-									stops = true
-								}
-							}
-							if _, ok := in.(*ssa.Panic); ok {
-								stops = true
-							}
-						}
-					}
-				}
-			}
-		}
-		r.Check(stops, "W2", "main/stop-on-error", a.P.InstrPos(c), "", "main stops when an update fails", "main carries on after a failed update: a truncated or missing list file could be committed")
+		a.checkMainStops(c)
 	}
 	if upd == nil {
 		r.Unk("W2", "generator/update-function", a.P.Pos(mainFn.Pos()), "", "main does not call a two-argument update function of the generator")
@@ -150,6 +139,40 @@ func (a *Analysis) ruleW() {
 	}
 	_ = okMain
 	a.ruleW2(upd)
+}
+
+// checkMainStops: main terminates the run when the update call c fails.
+func (a *Analysis) checkMainStops(c ssa.CallInstruction) {
+	r := a.R
+	// error stops the run
+	stops := false
+	if call, ok := c.(*ssa.Call); ok {
+		for _, ref := range *call.Referrers() {
+			bo, ok := ref.(*ssa.BinOp)
+			if !ok || bo.Op != token.NEQ {
+				continue
+			}
+			for _, br := range *bo.Referrers() {
+				if ifi, ok := br.(*ssa.If); ok {
+					if len(ifi.Block().Succs[0].Preds) != 1 {
+						r.Bad("W2", "main/stop-on-error", a.P.InstrPos(ifi), "", "main's fatal branch is also reached when the update did not fail (the error test is combined with another condition): some lists would not be regenerated")
+					}
+					for _, in := range ifi.Block().Succs[0].Instrs {
+						if cc, ok := in.(ssa.CallInstruction); ok {
+							n := calleeName(cc)
+							if strings.HasPrefix(n, "log.Fatal") || n == "os.Exit" || strings.HasPrefix(n, "log.Panic") || n == "panic" {
+								stops = true
+							}
+						}
+						if _, ok := in.(*ssa.Panic); ok {
+							stops = true
+						}
+					}
+				}
+			}
+		}
+	}
+	r.Check(stops, "W2", "main/stop-on-error", a.P.InstrPos(c), "", "main stops when an update fails", "main carries on after a failed update: a truncated or missing list file could be committed")
 }
 
 func (a *Analysis) genTable() (map[string]string, string, *ssa.Global) {
@@ -475,8 +498,13 @@ func (a *Analysis) ruleW2(upd *ssa.Function) {
 			r.OK("W2", fk+"/url", a.P.InstrPos(get), "", "downloads %s", s)
 		}
 	}
-	// output file
+	// output file (possibly behind a bufio.Writer, which must then be flushed)
 	w := through(exec.Call.Args[1])
+	var bw ssa.Value
+	if c, ok := w.(*ssa.Call); ok && (calleeName(c) == "bufio.NewWriter" || calleeName(c) == "bufio.NewWriterSize") {
+		bw = c
+		w = through(c.Call.Args[0])
+	}
 	okOut := false
 	if ex, ok := w.(*ssa.Extract); ok && ex.Index == 0 {
 		if oc, ok := ex.Tuple.(*ssa.Call); ok {
@@ -520,17 +548,60 @@ func (a *Analysis) ruleW2(upd *ssa.Function) {
 			r.Add("W2", fk+"/output", ep, "", Undecided, "the Execute target is not a file opened by os.OpenFile/os.Create in %s", fk)
 		}
 	}
-	// error discipline: every error result is tested and returned; the final result is Execute's error
+	// error discipline: no failing step is passed over.  For every call that can fail, either its
+	// error is the function's result as it stands (`return f()`), or it is compared with nil and
+	//   - on the non-nil edge every return gives back that error or a freshly built one (a wrapped
+	//     message), and the rendering step is not reached;
+	//   - on the nil edge the run goes on to the rendering step (for steps before it).
+	// A return of nil must come after the rendering step (and after the flush of a buffered writer).
 	nErr := 0
 	okErr := true
+	bad := func(at ssa.Instruction, format string, args ...any) {
+		r.Bad("W2", fk+"/errors", a.P.InstrPos(at), "", format, args...)
+		okErr = false
+	}
+	isCtor := func(v ssa.Value) bool {
+		c, ok := v.(*ssa.Call)
+		if !ok {
+			return false
+		}
+		switch calleeName(c) {
+		case "fmt.Errorf", "errors.New":
+			return true
+		}
+		return false
+	}
+	before := func(x, y ssa.Instruction) bool { // x is executed before y on every path to y
+		if x == y {
+			return false
+		}
+		if x.Block() == y.Block() {
+			for _, in := range x.Block().Instrs {
+				if in == x {
+					return true
+				}
+				if in == y {
+					return false
+				}
+			}
+		}
+		return x.Block().Dominates(y.Block())
+	}
+	var flush *ssa.Call
 	for _, c := range callsIn(upd) {
 		call, ok := c.(*ssa.Call)
 		if !ok {
 			continue // deferred Close calls are exempt (noted in DESIGN)
 		}
+		if bw != nil && calleeName(call) == "(*bufio.Writer).Flush" && len(call.Call.Args) == 1 && call.Call.Args[0] == bw && before(exec, call) {
+			flush = call
+		}
 		res := call.Call.Signature().Results()
-		if res.Len() == 0 || !isErrorType(res.At(res.Len()-1).Type()) {
+		if res.Len() == 0 || !isErrorType(res.At(res.Len()-1).Type()) || isCtor(call) {
 			continue
+		}
+		if call != exec && !before(call, exec) && !before(exec, call) {
+			continue // on a side branch (an error path): not a step of the pipeline
 		}
 		nErr++
 		var ev ssa.Value = call
@@ -543,25 +614,10 @@ func (a *Analysis) ruleW2(upd *ssa.Function) {
 			}
 		}
 		if ev == nil {
-			r.Bad("W2", fk+"/errors", a.P.InstrPos(call), "", "the error of %s is discarded", calleeName(call))
-			okErr = false
+			bad(call, "the error of %s is discarded", calleeName(call))
 			continue
 		}
-		returned := false
-		for _, ret := range returnsOf(upd) {
-			if len(ret.Results) == 1 && returnedValue(ret, 0) == ev {
-				returned = true
-			}
-		}
-		if !returned {
-			r.Bad("W2", fk+"/errors", a.P.InstrPos(call), "", "the error of %s is never returned", calleeName(call))
-			okErr = false
-			continue
-		}
-		if call == exec {
-			continue // the last step: its error is the function's result
-		}
-		// an intermediate step: the run stops exactly when the error is non-nil
+		// the test against nil
 		var test *ssa.If
 		var errSucc, okSucc *ssa.BasicBlock
 		for _, ref := range *ev.Referrers() {
@@ -584,24 +640,57 @@ func (a *Analysis) ruleW2(upd *ssa.Function) {
 			}
 		}
 		if test == nil {
-			r.Bad("W2", fk+"/errors", a.P.InstrPos(call), "", "the error of %s is not tested before the next step", calleeName(call))
-			okErr = false
+			direct := false
+			for _, ret := range returnsOf(upd) {
+				if len(ret.Results) == 1 && returnedValue(ret, 0) == ev && before(call, ret) {
+					direct = true
+				}
+			}
+			switch {
+			case direct && !before(call, exec):
+				// a last step: its error is the function's result
+			case direct:
+				bad(call, "the error of %s is returned without the file having been rendered", calleeName(call))
+			default:
+				bad(call, "the error of %s is neither tested before the next step nor returned", calleeName(call))
+			}
 			continue
 		}
-		stops := false
+		stops := len(errSucc.Preds) == 1
+		nret := 0
 		for _, ret := range returnsOf(upd) {
-			if len(ret.Results) == 1 && returnedValue(ret, 0) == ev && len(errSucc.Preds) == 1 && errSucc.Dominates(ret.Block()) {
-				stops = true
+			if !reaches(errSucc, ret.Block(), test.Block()) {
+				continue
+			}
+			nret++
+			v := returnedValue(ret, 0)
+			if len(ret.Results) != 1 || !(v == ev || isCtor(v)) {
+				stops = false
 			}
 		}
-		goesOn := len(okSucc.Preds) == 1 && okSucc.Dominates(exec.Block())
+		if nret == 0 || (before(call, exec) && reaches(errSucc, exec.Block(), test.Block())) {
+			stops = false
+		}
+		goesOn := len(okSucc.Preds) == 1 && (!before(call, exec) || okSucc.Dominates(exec.Block()))
 		if !stops || !goesOn {
-			r.Bad("W2", fk+"/errors", a.P.InstrPos(test), "", "the error test after %s is inverted or incomplete: the run must stop (returning the error) exactly when the error is non-nil and go on to render the file otherwise", calleeName(call))
-			okErr = false
+			bad(test, "the error test after %s is inverted or incomplete: the run must stop (returning the error) exactly when the error is non-nil and go on to render the file otherwise", calleeName(call))
+		}
+	}
+	if bw != nil && flush == nil {
+		bad(exec, "the template is rendered into a bufio.Writer that is never flushed after Execute: the tail of the file would be lost")
+	}
+	// success is reported only after the last step
+	last := ssa.Instruction(exec)
+	if flush != nil {
+		last = flush
+	}
+	for _, ret := range returnsOf(upd) {
+		if len(ret.Results) == 1 && isNilConst(returnedValue(ret, 0)) && !before(last, ret) {
+			bad(ret, "%s returns nil on a path that has not passed %s: a list file would be missing or incomplete without an error", fk, calleeName(last.(ssa.CallInstruction)))
 		}
 	}
 	if okErr {
-		r.OK("W2", fk+"/errors", pos, "", "all %d error results are returned to main", nErr)
+		r.OK("W2", fk+"/errors", pos, "", "all %d error results stop the run and reach main", nErr)
 	}
 	// ---- W3 template
 	a.ruleW3(exec)
